@@ -52,7 +52,9 @@ def label_ok(w: str, extra_models=()) -> bool:
     return True
 
 
-SPECIAL_WORDS = ["inf", "nan", "Infinity", "NaN", "INF", "infinity", "yes", "no", "on", "off", "True", "False", "None", "e", "E"]
+SPECIAL_WORDS = ["inf", "nan", "Infinity", "NaN", "INF", "infinity", "yes", "no", "on", "off", "True", "False", "None", "e", "E",
+                 # words that begin like a keyword in another letter case (only a line starting with `End` is special)
+                 "endcap_frac", "ENDPOINT", "enddecay_1", "decay", "DECAY0", "alias", "define_x"]
 
 
 def word_ok(w: str) -> bool:
@@ -92,6 +94,17 @@ def label_pool():
 
 
 @lru_cache(maxsize=1)
+def _unknown_to_every_table(w: str) -> bool:
+    if w in pdg_tables()["evt"]:
+        return False
+    from particle import Particle
+    try:
+        Particle.from_evtgen_name(w)
+        return False
+    except Exception:  # noqa: BLE001
+        return True
+
+
 def unknown_labels():
     """labels no PDG/EvtGen table knows (their conjugate must come back wrapped)"""
     evt = pdg_tables()["evt"]
@@ -115,6 +128,15 @@ def _readable(w: str) -> bool:
         if d < 0:
             return False
     return d == 0 and not w.startswith("(")
+
+
+def related_variants(base: str) -> list[str]:
+    """spellings related to `base`: extensions, truncations, the other letter case, and names that match it (or that it
+    matches) when one of them is read as a shell pattern (`*` is an ordinary character of particle names)"""
+    out = [base + "'", base + "0", base + "_1", base + "bar", "anti-" + base, base + "*", base + "S", "My" + base,
+           base[:-1], base[1:], base.swapcase(), base.lower(), base.upper(), base + "_mass",
+           base[:1] + "*" + base[1:], base.replace("*", ""), base.replace("*", "_S"), base.replace("*", "x*")]
+    return [w for w in dict.fromkeys(out) if w and w != base]
 
 
 class Concretiser:
@@ -149,6 +171,7 @@ class Concretiser:
                         break
                 self._bind(n, a)
                 self._bind(c, b)
+        self.conj_matters = conj_matters
         self.free_pool = unknown_labels() if conj_matters else label_pool()
         if readable:
             # descriptors are read back by bracket matching: names balanced in (), not starting with "("
@@ -169,9 +192,28 @@ class Concretiser:
         self.names[a] = c
         self.used.add(c)
 
+    # spellings related to a spelling already in use: an extension, a truncation, the other letter case - names that are
+    # prefixes, suffixes or case twins of each other are ordinary in decay files (eta / eta' / eta_c, D0 / anti-D0 / D0bar,
+    # Omega / omega) and a substring, prefix or case-folding test in the code confuses exactly those
+    related = False
+
+    def _related_spelling(self, r):
+        base = r.choice(sorted(self.names.values()))
+        forms = related_variants(base)
+        readable = all(_readable(w) for w in self.free_pool[:50])
+        r.shuffle(forms)
+        for w in forms:
+            if len(w) > 1 and w not in self.used and label_ok(w) and (not readable or _readable(w)) and not w.startswith("ChargeConj"):
+                if self.conj_matters and not _unknown_to_every_table(w):
+                    continue                # a free name must stay one whose conjugate comes back wrapped
+                return w
+        return None
+
     def name(self, a: str) -> str:
         if a not in self.names:
-            self._bind(a, self._pick(self.free_pool, self._r("name", a)))
+            r = self._r("name", a)
+            w = self._related_spelling(r) if (self.related and self.names and r.random() < 0.5) else None
+            self._bind(a, w or self._pick(self.free_pool, r))
         return self.names[a]
 
     def word(self, a: str) -> str:
